@@ -49,8 +49,11 @@ type callResult struct {
 	Size  uint32
 }
 
+var c15LastPw *spg.Password // password returned by the most recent c15Call (nil if none)
+
 func c15Call(method string, tp *tape.Tape, cr *spg.CharRecipe, wr *spg.WLRecipe) callResult {
 	var res callResult
+	c15LastPw = nil
 	g := func() (*spg.Password, error) {
 		switch method {
 		case "Generate":
@@ -75,6 +78,7 @@ func c15Call(method string, tp *tape.Tape, cr *spg.CharRecipe, wr *spg.WLRecipe)
 	}
 	o := callRaw(tp, g)
 	if o.Pw != nil {
+		c15LastPw = o.Pw
 		res.Tok = tokKey(toToks(o.Pw.Tokens()))
 		res.Bits = math.Float32bits(o.Pw.Entropy)
 	}
@@ -234,6 +238,21 @@ func c15Run(c c15Case) error {
 			want = c15Call(method, mk(), &fresh, nil)
 		} else {
 			got = c15Call(method, mk(), nil, ws.r)
+			if method == "Generate" && c15LastPw != nil && ws.spec.Sep.Kind != "script" {
+				// the password honours the CURRENT fields (the fresh copy below
+				// shares the list object, so state kept in the list would fool it)
+				spec := ws.spec
+				spec.Words = ws.inCopy
+				_, _, m := buildSep(spec.Sep)
+				if rf, b := sepRefused(spec.Sep); rf || b {
+					m.Refused = true
+				}
+				if spec.Sep.Kind != "nested" {
+					if err := checkWLStructure(spec, m, c15LastPw); err != nil {
+						return fmt.Errorf("step %d: Generate on wordlist recipe %d does not honour its current fields: %w", step, op.Target, err)
+					}
+				}
+			}
 			fresh := spg.NewWLRecipe(ws.spec.Length, ws.list)
 			fresh.Capitalize = spg.CapScheme(ws.spec.Scheme)
 			fresh.SeparatorChar, fresh.SeparatorFunc, _ = buildSep(ws.spec.Sep)
